@@ -110,17 +110,19 @@ def master_diff(rng, n, drv, res):
         async def main(loop, acts=acts, out=out):
             ticks = []
 
-            class StubTicker:
-                time = 0
-                components = {"a", "b", "s"}
-                finished = asyncio.Event()
+            from tickit.core.management.ticker import Ticker
+
+            class StubTicker(Ticker):
+                """tickit's own Ticker (so that whatever the scheduler asks of a ticker between ticks is answered by
+                the real class) whose ticks complete at once: only the scheduler's bookkeeping is under test here"""
 
                 async def __call__(self, when, roots):
                     self.time = when
                     ticks.append((int(when), sorted(roots)))
 
-            sched = MasterScheduler(InverseWiring({}), object, object)
-            sched.ticker = StubTicker()
+            sched = MasterScheduler(InverseWiring({c: {} for c in ("a", "b", "s")}), object, object)
+            sched.ticker = StubTicker(sched._wiring, sched.update_component, sched.skip_component)
+            sched.ticker.time = 0
             sched.new_wakeup = asyncio.Event()
             await sched._do_initial_tick()
             t_sim = 0
@@ -233,17 +235,20 @@ def nested_diff(rng, n, drv, res):
             ns = NestedScheduler(InverseWiring({c: {} for c in "xyz"}), object, object, {}, raise_interrupt)
             during = []
 
-            class StubTicker:
-                components = set()
-                finished = asyncio.Event()
-                time = 0
+            from tickit.core.management.ticker import Ticker
 
+            class StubTicker(Ticker):
                 async def __call__(self, time, roots):
+                    self.time = time
                     out.append({"roots": sorted(set(roots) - {"external", "expose"})})
                     for c in during:
                         await ns.schedule_interrupt(c)
 
-            ns.ticker = StubTicker()
+            ns.ticker = StubTicker(ns._wiring, ns.update_component, ns.skip_component)
+            ns.ticker.time = 0
+            # the system simulation's initial tick (every inner component) is not part of the bookkeeping compared here
+            await ns.on_tick(0, Changes(Map()))
+            out.clear()
             t = 0
             for kind, arg in plan:
                 if kind == "interrupt":
